@@ -96,3 +96,61 @@ def gen_seq(rng, n, family):
 
 
 FAMILIES = ['uniform', 'tied', 'constant', 'sorted', 'reversed', 'extreme', 'huge', 'ints', 'gauss', 'mixedties']
+
+
+# ---------------------------------------------------------------------------
+# independent implementation written from Box 1 of Jain & Chlamtac (1985), m markers,
+# generic over the number type (float or Fraction).  1-based marker positions.
+# Tie convention of the property: an observation equal to a marker counts as below it.
+# ---------------------------------------------------------------------------
+
+def paper_init(p, first):
+    """after the first m observations: heights = sorted observations, n_i = i"""
+    return dict(p=list(p), N=len(first), q=sorted(first), n=list(range(1, len(first) + 1)))
+
+
+def paper_step(st, x, num=float, margins=None):
+    p, q, n = st['p'], list(st['q']), list(st['n'])
+    m = len(q)
+    N = st['N'] + 1
+    # B1: find cell k, adjust extreme values
+    if x < q[0]:
+        q[0] = x
+        k = 1
+    elif q[m - 1] < x:
+        q[m - 1] = x
+        k = m - 1
+    else:
+        k = sum(1 for i in range(m) if q[i] < x)      # markers strictly below x
+        k = min(max(k, 1), m - 1)
+    # B2: increment positions of markers k+1..m ; desired positions
+    for i in range(k, m):
+        n[i] += 1
+    desired = [1 + (N - 1) * p[i] for i in range(m)]
+    # B3: adjust heights of markers 2..m-1
+    for i in range(1, m - 1):
+        d = desired[i] - n[i]
+        if margins is not None:
+            margins.append(abs(abs(float(d)) - 1.0))
+        if (d >= 1 and n[i + 1] - n[i] > 1) or (d <= -1 and n[i - 1] - n[i] < -1):
+            s = 1 if d > 0 else -1
+            qp = q[i] + num(s) / (n[i + 1] - n[i - 1]) * (
+                (n[i] - n[i - 1] + s) * (q[i + 1] - q[i]) / (n[i + 1] - n[i])
+                + (n[i + 1] - n[i] - s) * (q[i] - q[i - 1]) / (n[i] - n[i - 1]))
+            if margins is not None:
+                scale = max(abs(float(q[i - 1])), abs(float(q[i + 1])), 1e-300)
+                margins.append(min(abs(float(qp - q[i - 1])), abs(float(q[i + 1] - qp))) / scale)
+            if q[i - 1] < qp < q[i + 1]:
+                q[i] = qp
+            else:
+                q[i] = q[i] + s * (q[i + s] - q[i]) / (n[i + s] - n[i])
+            n[i] += s
+    return dict(p=p, N=N, q=q, n=n)
+
+
+def close_rel(a, b, rtol=1e-9):
+    if a == b:
+        return True
+    if math.isnan(a) or math.isnan(b) or math.isinf(a) or math.isinf(b):
+        return False
+    return abs(a - b) <= rtol * max(abs(a), abs(b), 1e-300)
